@@ -11,6 +11,57 @@ def repo_hook_commits():
         return []
 
 CHECKS = {
+    "C04": dict(
+        technique="TLC exhaustive model checking of the decommitment queue machine over symbolic hash terms; TLC-generated instances replayed on vector_commitment_decommit; TLC trace validation of hooked node events",
+        level="model_checking",
+        text="Every height/friendly-boundary/query-set/single-corruption instance within the bounds is decided on the model (Complete, Binding, ExactWitness) "
+             "and replayed on the real function under two hash builds (four in thorough); the recorded node derivations are validated as data flow from leaves+witness to the root.",
+        note="Hashes are free constructors (collision resistance assumed); hash values re-computed by the harness with sha3/blake2/starknet-crypto.",
+        ref="6/C04"),
+    "C05": dict(
+        technique="TLC exhaustive model checking of table_decommit (row-hash rule, length guard) over symbolic terms; replay on the real table_decommit; TLC trace validation with Montgomery products recomputed at the real field",
+        level="model_checking",
+        text="All column counts/heights/friendly counts/query sets/single corruptions within bounds decided on the model and replayed on the real code under two (four) hash builds; traces bind the row-hash rule and the linkage table->vector decommitment.",
+        note="Hashes free constructors; multiplication by R injective; BigField.class arithmetic.",
+        ref="6/C05"),
+    "C06": dict(
+        technique="TLC exhaustive check of the folding identity over F_97/F_193 and of the FRI verifier machine over F_257; TLC-generated instances replayed at the real field on fri_commit+fri_verify; TLC trace validation recomputing every fold by the interpolation formula at the real field",
+        level="model_checking",
+        text="Folding = polynomial folding is exhaustive on small fields (monomial basis, all cosets, enough challenges to decide all); completeness of the layer machine is exhaustive on a configuration catalogue; "
+             "each instance and random larger configurations are executed on the real code and every logged fold / coset assembly / last-layer value is re-derived by TLC at the 252-bit field.",
+        note="Layer decommitments abstracted by the C04/C05 theorem in the small-field model; independent prover in the harness is trusted glue (cross-validated by acceptance).",
+        ref="6/C06"),
+    "C07": dict(
+        technique="TLC exhaustive model checking of the FRI verifier machine under every single-position corruption and for degree = bound functions; replay at the real field; TLC trace validation (acceptance requires every layer decommitment)",
+        level="model_checking",
+        text="Each corruption site of each catalogue instance is rejected on the model (committed-value corruptions by the decommitment itself) and on the real fri_verify; the degree clause is exact on the model "
+             "(per-query acceptance, some index rejects) and measured at the real field (no acceptance in any trial).",
+        note="Soundness error itself is not computed; accidental small-field coincidences for changed evaluation points are excluded from the model invariant and expected rejected at the real field.",
+        ref="6/C07"),
+    "C08": dict(
+        technique="TLC exhaustive enumeration of transcript operation histories with injectivity (term decoding) invariants; every history replayed on the real Transcript with term evaluation and equality-partition check",
+        level="model_checking",
+        text="All histories up to 4 (5) operations over 11 operation kinds: challenge and digest terms decode to exactly the absorbed prefix and counter; the real Transcript reproduces digest, counter and every challenge.",
+        note="Poseidon modelled as a free constructor; evaluated by starknet-crypto in the harness.",
+        ref="6/C08"),
+    "C09": dict(
+        technique="TLC exhaustive check of the threshold/leading-zero equivalence over all difficulties and zero-prefix lengths; TLC trace validation of hooked verify_pow / commit runs at byte level",
+        level="model_checking",
+        text="The code's integer threshold equals 'n leading zero bits' for all n in 0..128 and all prefix lengths; real runs (both PoW hashes) are re-derived byte by byte by TLC, including the order check-then-absorb.",
+        note="Keccak/Blake2s values re-computed by the harness (sha3, blake2 crates).",
+        ref="6/C09"),
+    "C10": dict(
+        technique="TLC exhaustive small-alphabet check of the sampling rule; TLC trace validation of real generate_queries / queries_to_points with big-natural and real-field recomputation",
+        level="model_checking",
+        text="For every domain size 2^1..2^64 and query counts incl. above the domain size, the squeezes consumed, the reduction, sorting, de-duplication and the index->point map of the real code are re-derived by TLC.",
+        note="Poseidon outputs taken from the code's squeeze events and re-computed by the harness.",
+        ref="6/C10"),
+    "C11": dict(
+        technique="TLC check Validate(code-shaped, field arithmetic) <=> ConfigOK(property, integers) over a deviation catalogue with wrap-around values; replay on the real StarkConfig::validate; Apalache proves the equivalence for all field elements on the 3-layer shape",
+        level="model_checking",
+        text="Every single (pairs in thorough) deviation from an honest configuration incl. consistent re-declarations is decided by the property predicate and must equal the real validate's verdict; the unbounded instance removes the grid for one FRI shape.",
+        note="Model prime 12289 stands for the real prime for wrap-around offsets; Apalache instance fixes n_layers = 3.",
+        ref="6/C11"),
     "C12": dict(
         technique="TLC exhaustive enumeration at the real field (Java BigInteger override) + TLC trace validation of every StarkDomains::new result",
         level="model_checking",
